@@ -206,7 +206,7 @@ prop(
         "buffer_pool::Buffer::{from_vec, can_fit, layout_match, into_vec, release, drop}",
         "buffer_pool::BufferPool::{new, with_min_size, add, alloc, len}",
     ],
-    bounds=("pool pre-state: two pooled buffers with concrete element types and capacities from a family (quick: u32x4, u32x6, "
+    bounds=("pool pre-state: two pooled buffers (plus one instance with three buffers of mixed element sizes: u8x8, u8x16, f32x5) with concrete element types and capacities from a family (quick: u32x4, u32x6, "
             "u64x2, [u16;2]x4, u8x4, u8x16 with min_size 8 bytes; thorough adds u32x16/x24, f32x8, u64x4, u8x32, i16x32, u16x16 "
             "with min_size 16/32), in both pool orders; one alloc::<T>(req) step with symbolic req (<= 4..20 quick, <= 64 "
             "thorough) for T in {f32, i64, u32, [u16;2], i8, u8, i16}; Buffer round trips for 6 type pairs (same layout, "
